@@ -45,7 +45,33 @@ def text(h, C):
         if out.kind == "return" and isinstance(out.value, SymStr):
             raise Unknown("basic_render gives a symbolic string for concrete labels")
         return out
-    return [hist.Obs("basic_render(U, rfunc=name)", ("C16", "C13"), PLAIN + ".basic_render", do, want),
+    RANK = {"a": 3, "b": 2, "c": 1, "d": 0, "U": 5, "W": 4, "?": 9}
+
+    def want_sorted_then_plain(m):
+        plain = want(m)
+        if plain is DC or plain is None:
+            return DC
+        lines = []
+        for v in sorted(m.umem["U"], key=RANK.get):
+            r = sorted(hist.m_neighbors(m, v, "FORWARD", u0), key=RANK.get)
+            lines.append((v + " -> " + ", ".join(r)).rstrip())
+        return [lines, plain]
+
+    def do_sorted_then_plain(g):
+        key = Callback("sort", lambda I, k, a, kw: RANK.get(getattr(a[0], "name", "?"), 9))
+        outs = []
+        for sort in (key, None):
+            out = h.call(fn, g.obj("U"), _name_cb("rfunc"), sort)
+            if out.kind == "return" and isinstance(out.value, str):
+                ls = [l.rstrip() for l in out.value.split("\n")]
+                while ls and ls[-1] == "":
+                    ls.pop()
+                outs.append(ls)
+            else:
+                outs.append(hist.osig(out))
+        return Outcome("return", hist._Plain(outs))
+    return [hist.Obs("basic_render(U, rfunc=name, sort=key) then basic_render(U, rfunc=name)", ("C16", "C13"), PLAIN + ".basic_render", do_sorted_then_plain, want_sorted_then_plain),
+            hist.Obs("basic_render(U, rfunc=name)", ("C16", "C13"), PLAIN + ".basic_render", do, want),
             hist.Obs("basic_render(W, rfunc=name)", ("C16", "C13"), PLAIN + ".basic_render", lambda g: do(g, "W"), lambda m: want(m, "W"))]
 
 
